@@ -295,6 +295,8 @@ func TestC07Exhaustive(t *testing.T) {
 
 // TestC07Long: "for every text": there is no length limit in either symbology. Very long texts of high-valued
 // characters (sums and weighted sums far beyond 16 bits, symbols of several hundred thousand modules).
+const longMixAlphabet = "ABCDEFGHIJ0123456789-. abcdefghijklmnopqrstuvwxyz!#&()=?@[]{}~\x01\x7f"
+
 func TestC07Long(t *testing.T) {
 	st := NewStats("C07", "long")
 	defer st.Flush()
@@ -311,6 +313,13 @@ func TestC07Long(t *testing.T) {
 				cases = append(cases, C39Case{Sym: sym, Content: BStr(strings.Repeat("A", n)), Checksum: true}, C39Case{Sym: sym, Content: BStr(strings.Repeat("Z", 66000) + "-1"), Checksum: true})
 			}
 		}
+	}
+	for seed := 0; seed < 4; seed++ { // long full-ASCII texts mixing plain and shifted characters at every offset
+		b := fillPattern(3, int64(seed+41), 30000+seed*777)
+		for i := range b {
+			b[i] = longMixAlphabet[int(b[i])%len(longMixAlphabet)]
+		}
+		cases = append(cases, C39Case{Sym: 93, Content: BStr(b), Checksum: seed%2 == 0, FullASCII: true}, C39Case{Sym: 39, Content: BStr(b), Checksum: seed%2 == 1, FullASCII: true})
 	}
 	if thorough() { // weighted sums beyond 2^31
 		for _, sym := range []int{39, 93} {
